@@ -238,8 +238,12 @@ def run(tier, replay=None):
             rep.extra["replay_affinity_points"] = summ["affinity_points"]
         for _ in range(summ["deviation_explained"]):
             rep.known_finding_seen("maglev-rebuild")
+        inconclusive = [v for v in out if v.get("kind") == "violation" and v["class"].startswith("harness:")]
+        if len(inconclusive) * 20 > max(1, summ["histories"]):
+            raise vlib.ToolError("replay_backends: %d inconclusive histories: %s" % (len(inconclusive), inconclusive[0]["detail"]["what"][:200]))
+        rep.extra["replay_inconclusive_histories"] = rep.extra.get("replay_inconclusive_histories", 0) + len(inconclusive)
         for v in out:
-            if v.get("kind") == "violation":
+            if v.get("kind") == "violation" and not v["class"].startswith("harness:"):
                 # the replay file is the generated behaviour itself (./check C12 --replay re-executes it)
                 n = v["detail"].get("behaviour", 0)
                 rep.violation(v["class"], v["detail"]["what"][:250], _line(beh, n) or v,
